@@ -838,7 +838,7 @@ func VerifyFunc(p *Program, fn *ssa.Function, prop string) (res *FuncResult) {
 			}
 			sort.Strings(names)
 			for _, h := range names {
-				if modset[h] || strings.HasPrefix(h, "lghost:") || h == "ghost:work" {
+				if modset[h] || strings.HasPrefix(h, "lghost:") || h == "ghost:work" || (h == "ghost:statever" && spec.Kind == "mutating") {
 					continue
 				}
 				cur := out.Heaps[h]
